@@ -287,6 +287,10 @@ def handleDocInfo (req : Json) : Json :=
         ("vram_class", match seg.vramClass with | some s => jstr s | none => .null),
         ("start_align", jnatOpt seg.segmentStartAlign), ("end_align", jnatOpt seg.segmentEndAlign),
         ("subalign", jnatOpt seg.subalign), ("wildcard", jb seg.wildcardSections),
+        ("tables_ok", jb (
+          let lists : List Str := seg.allocSections ++ seg.noloadSections
+          let subVals : List Str := (seg.sectionsSubgroups.map (·.2)).flatten
+          decide lists.Nodup && decide subVals.Nodup && subVals.all (fun x => !lists.contains x))),
         ("gp", match seg.gpInfo with
           | some g => if C06.specEmit o g.cond then Json.mkObj [("section", jstr g.sect), ("offset", .num ⟨g.offset, 0⟩)] else .null
           | none => .null),
